@@ -367,7 +367,7 @@ class Script:
         op = list(op)
         if self.real.dead:
             return None
-        o = self.real.do(op)
+        o = _do_guarded(self.real, op)
         self.ops.append(op)
         self.obs.append(o)
         return o
@@ -376,11 +376,23 @@ class Script:
         return {"kind": self.kind, "cfg": self.cfg, "ops": self.ops}
 
 
+def _do_guarded(real, op):
+    """an exception the interpreters do not expect from the code under test becomes an observation (the model has none)"""
+    try:
+        return real.do(op)
+    except Exception as e:  # noqa: BLE001
+        from ..core import raised_in_code_under_test
+        if not raised_in_code_under_test(e):
+            raise
+        real.dead = True
+        return ["uncaught", type(e).__name__]
+
+
 def run_script_real(desc):
     real = REAL[desc["kind"]](desc["cfg"])
     obs = []
     for op in desc["ops"]:
-        obs.append(real.do(op))
+        obs.append(_do_guarded(real, op))
         if real.dead:
             break
     return real, obs
